@@ -34,6 +34,8 @@ func c15Menu(w *mintops.W) []string {
 			for i := 0; i < cap2(np, 2); i++ {
 				ops = append(ops, fmt.Sprintf("melt|%d|%d|S", j, i), fmt.Sprintf("melt|%d|%d|P", j, i), fmt.Sprintf("melt|%d|%d|F|N", j, i), fmt.Sprintf("melt|%d|%d|E|S", j, i))
 			}
+			// an input that carries a witness: it must be reported with it whichever path marks it spent
+			ops = append(ops, fmt.Sprintf("melt|%d|0w|S", j), fmt.Sprintf("melt|%d|0w|P", j))
 			if np >= 3 {
 				ops = append(ops, fmt.Sprintf("melt|%d|1,2|P", j))
 			}
@@ -105,6 +107,9 @@ func c15Probe(maxLen int) func(w *mintops.W) {
 			w.QueryRestore(q, false)
 			w.QueryRestore(q, true)
 		}
+		// the same endpoints with a storage error injected at each read call of one whole-alphabet query
+		w.QueryUnderReadFaults(false, alpha[:len(alpha)-2])
+		w.QueryUnderReadFaults(true, bs[:len(bs)-1])
 	}
 }
 
@@ -123,7 +128,7 @@ var c15All = specMap(c15Specs(true), c15Specs(false))
 func init() {
 	register(&Prop{ID: "C15", Level: "model_checking", QuickBudget: 100 * time.Second, ThoroughBudget: 25 * time.Minute,
 		Run: func(c *rt.Ctx) {
-			c.Cov["rule"] = "E3: every history up to the depth bound over {swap (plain / with witness / two inputs), melt quote (external, internal), melt x {Succeeded, Pending, Failed->NotFound, error->Succeeded}, poll / state check x {Succeeded, Failed}, mint quote, settle, mint (fresh, same outputs), rotate, restart} over 3 proofs, 2 mint quotes, 2 melt quotes; in every distinct state ProofsStateCheck is asked every sequence of length 1..L over {Y of each tracked proof, unknown point, not-a-point, non-hex} and RestoreSignatures every sequence of length 1..L over {signed B_, refused B_, latest signed B_, unknown B_, malformed}, through the Go API and the HTTP handler, and compared with the reference model that is fed only from responses"
+			c.Cov["rule"] = "E3: every history up to the depth bound over {swap (plain / with witness / two inputs), melt quote (external, internal), melt x {Succeeded, Pending, Failed->NotFound, error->Succeeded}, poll / state check x {Succeeded, Failed}, mint quote, settle, mint (fresh, same outputs), rotate, restart} over 3 proofs, 2 mint quotes, 2 melt quotes; in every distinct state ProofsStateCheck is asked every sequence of length 1..L over {Y of each tracked proof, unknown point, not-a-point, non-hex} and RestoreSignatures every sequence of length 1..L over {signed B_, refused B_, latest signed B_, unknown B_, malformed}, through the Go API and the HTTP handler, and compared with the reference model that is fed only from responses; melts also with an input that carries a witness (settled directly and through a later poll); in every state one whole-alphabet query per endpoint is repeated with a storage error injected at each of its read calls: the answer must be an error or identical to the fault-free one"
 			runSpecs(c, c15Specs(c.Quick()))
 		},
 		Worker: bfs.Worker(c15All),
